@@ -23,13 +23,13 @@ var (
 
 // store is the instrumented backing store.
 type store struct {
-	w       *mc.World
-	m       map[mux.Int]string
-	inside  map[mux.Int]int // callbacks currently inside, per key
-	calls   []string        // store callbacks in the order they ran: "add(k)=v" …
-	loads   map[mux.Int]int
-	faults  bool
-	nfault  int
+	w      *mc.World
+	m      map[mux.Int]string
+	inside map[mux.Int]int // callbacks currently inside, per key
+	calls  []string        // store callbacks in the order they ran: "add(k)=v" …
+	loads  map[mux.Int]int
+	faults bool
+	nfault int
 }
 
 func (s *store) enter(k mux.Int, what string) bool {
@@ -230,10 +230,10 @@ func (x *world) coherent(k mux.Int, after string) {
 }
 
 type cfg struct {
-	name   string
-	lru    int64 // 0: map cache
-	size   int
-	keys   []mux.Int
+	name string
+	lru  int64 // 0: map cache
+	size int
+	keys []mux.Int
 }
 
 func newWorld(w *mc.World, c cfg, faults bool) *world {
